@@ -6,6 +6,7 @@ import (
 	"sort"
 	"strconv"
 	"strings"
+	"time"
 
 	"github.com/smart-core-os/sc-golang/verifharness/cmd/c02/k4"
 	"github.com/smart-core-os/sc-golang/verifharness/lib"
@@ -143,6 +144,136 @@ func expandSweeps(sc Scenario, r *Run) (Scenario, []HOp, *verdict) {
 	return out, hist, nil
 }
 
+// sweepModel: the same execution as a schedule of the Lean model. The thread that runs CreateHail has, in place of
+// that call, the program Add(generated id) ; Delete(h1, allow missing, expected value = h1 as listed) ; Delete(h2, …)
+// ; … - one Delete per Delete the sweep started (seen through the collection's id lookups), with the version the
+// hail had when the sweep's List ran (the contents after the step of the Add's commit). A Delete's first model step
+// is its read, which the code makes in the step that finished the call before it (the Add's commit, the previous
+// Delete's last attempt): the model schedule is the real one with one more step of the thread right after each
+// step in which a Delete started. dels: per thread, the positions of the sweep's Deletes in its model program.
+func sweepModel(sc Scenario, r *Run) (progs [][]Op, sched []int, dels map[int]map[int]bool, ok bool) {
+	if r.Stuck || len(r.HailSteps) != len(r.Sched)+1 {
+		return nil, nil, nil, false
+	}
+	dels = map[int]map[int]bool{}
+	extra := map[int]int{} // step -> model steps of its thread to insert after it
+	progs = make([][]Op, len(sc.Progs))
+	for t, p := range sc.Progs {
+		for n, o := range p {
+			if o.K != "h" {
+				progs[t] = append(progs[t], o)
+				continue
+			}
+			progs[t] = append(progs[t], Op{K: "u", Gen: true, EA: true, CIA: true, ViaAdd: true, F: o.F})
+			var h *HOp
+			for i := range r.Hist {
+				if r.Hist[i].T == t && r.Hist[i].N == n {
+					h = &r.Hist[i]
+				}
+			}
+			if h == nil {
+				return nil, nil, nil, false // the call did not finish
+			}
+			s0 := -1
+			for s := int(h.Inv); s <= int(h.Resp) && s < len(r.Sched); s++ {
+				if r.Sched[s] == t && r.From[s] == "gau.beforeLock" {
+					s0 = s
+					break
+				}
+			}
+			if s0 < 0 {
+				continue
+			}
+			for _, c := range r.IDCalls {
+				if c.Step < s0 || c.Step > int(h.Resp) || c.Step >= len(r.Sched) || r.Sched[c.Step] != t || c.ID == "" {
+					continue
+				}
+				id := idOf(c.ID)
+				v, listed := r.HailSteps[s0+1][id]
+				if !listed {
+					return nil, nil, nil, false
+				}
+				if dels[t] == nil {
+					dels[t] = map[int]bool{}
+				}
+				dels[t][len(progs[t])] = true
+				progs[t] = append(progs[t], Op{K: "d", ID: id, AM: true, Expect: &v})
+				extra[c.Step]++
+			}
+		}
+	}
+	for s, t := range r.Sched {
+		sched = append(sched, t)
+		for i := 0; i < extra[s]; i++ {
+			sched = append(sched, t)
+		}
+	}
+	return progs, sched, dels, true
+}
+
+// sweepAnswer: the model's answer with the results of the sweep's Deletes reduced to what can be seen of them from
+// outside (the version removed, or "-": refused, nothing there, gave up) and without the ghost time stamps
+func sweepAnswer(answer string, dels map[int]map[int]bool) string {
+	answer, _ = splitLin(answer)
+	answer, _ = splitRT(answer)
+	parts := strings.Split(answer, "|")
+	for i, p := range parts {
+		if !strings.HasPrefix(p, "T") || !strings.Contains(p, "=[") {
+			continue
+		}
+		t, err := strconv.Atoi(p[1:strings.Index(p, "=")])
+		if err != nil || dels[t] == nil {
+			continue
+		}
+		body := strings.TrimSuffix(p[strings.Index(p, "=[")+2:], "]")
+		rs := strings.Split(body, ",")
+		for n := range rs {
+			if dels[t][n] && !(strings.HasPrefix(rs[n], "ok:") && rs[n] != "ok:nil") {
+				rs[n] = "-"
+			}
+		}
+		parts[i] = fmt.Sprintf("T%d=[%s]", t, strings.Join(rs, ","))
+	}
+	return strings.Join(parts, "|")
+}
+
+// sweepObserved: the real execution in the same form: per thread the results of its calls, a CreateHail followed by
+// one entry per Delete its sweep started - the version that disappeared during that Delete's steps, or "-"
+func sweepObserved(sc Scenario, r *Run, progs [][]Op, dels map[int]map[int]bool, hist []HOp) string {
+	removedBy := map[[2]int]string{} // (thread, hail id) -> the version the sweep removed
+	commits := 0
+	for _, h := range hist {
+		if h.N >= 100 {
+			removedBy[[2]int{h.T, h.Op.ID}] = h.Res
+		}
+		if strings.HasPrefix(h.Res, "ok:") && h.Res != "ok:nil" {
+			commits++
+		}
+	}
+	var parts []string
+	for t := range progs {
+		var rs []string
+		k := 0
+		for n, o := range progs[t] {
+			if dels[t][n] {
+				if res, ok := removedBy[[2]int{t, o.ID}]; ok {
+					rs = append(rs, res)
+				} else {
+					rs = append(rs, "-")
+				}
+				continue
+			}
+			if k < len(r.Results[t]) {
+				rs = append(rs, r.Results[t][k])
+			}
+			k++
+		}
+		parts = append(parts, fmt.Sprintf("T%d=[%s]", t, strings.Join(rs, ",")))
+	}
+	return strings.Join(parts, "|") + "|store=" + showStamped(r.Final, r.Stamps) + fmt.Sprintf("|log=%d", commits) +
+		"|pc=" + strings.Repeat("i", len(progs)) + fmt.Sprintf("|rng=%d", r.RNG)
+}
+
 // sweepWitnesses: one expired hail (or two), a CreateHail that sweeps, and rivals that write to the expired hail
 // while the sweep is between its List and its Delete - a re-dispatch (arrive_time moves forward: the hail is not
 // expired any more), a state change (still expired, another version), a Delete, an upsert -; every schedule
@@ -200,8 +331,189 @@ func genSweep(rng *rand.Rand) Scenario {
 	return sc
 }
 
+// ---------------------------------------------------------------------------------------------
+// the window BETWEEN the sweep's List and a Delete's read (in a hooked run the two lie in one step): no hooks, no
+// goroutines - the rival is a complete call made from the collection's id lookup at the start of that Delete
+
+type nestedSweep struct {
+	run   *Run
+	scx   Scenario // the calls of the write path, for the judge
+	hist  []HOp
+	v     *verdict
+	progs [][]Op // the model's programs and schedule
+	sched []int
+	dels  map[int]map[int]bool
+	obs   string
+}
+
+func runNestedSweep(sc Scenario) *nestedSweep { return runNestedSweepOnce(sc, false) }
+
+func runNestedSweepOnce(sc Scenario, confirm bool) *nestedSweep {
+	w := newWorld(sc, false)
+	outer := sc.Progs[0][0]
+	w.nestedSweep, w.sweepRivals = true, outer.Rivals
+	listed := w.hailMap() // nothing else runs before the sweep's List but the Add of a new id
+	gen := -1
+	var res string
+	finished := make(chan struct{})
+	go func() {
+		defer close(finished)
+		if p, msg := lib.Catch(func() { res = w.exec(outer, &gen) }); p {
+			res = "panic:" + msg
+		}
+	}()
+	add := Op{K: "u", Gen: true, EA: true, CIA: true, ViaAdd: true, F: outer.F}
+	out := &nestedSweep{scx: sc}
+	select {
+	case <-finished:
+	case <-time.After(5 * time.Second):
+		if !confirm {
+			return runNestedSweepOnce(sc, true)
+		}
+		stuckNested++
+		out.run = &Run{Stuck: true, Final: map[int]P{}, Stamps: map[int]int64{}}
+		out.hist = []HOp{{T: 0, Op: add, Inv: 0, Resp: 1, Res: "deadlock", GenID: -1}}
+		out.scx.Progs = [][]Op{{add}}
+		return out
+	}
+	end := w.seq.Add(1)
+	r := &Run{Results: [][]string{{res}}, RNG: w.rng.n}
+	r.Final, r.Stamps = w.contents()
+	out.run = r
+	out.progs = [][]Op{{add}}
+	out.dels = map[int]map[int]bool{0: {}}
+	out.sched = []int{0, 0, 0}
+	firstSeq := end
+	if len(w.sweepStarts) > 0 {
+		firstSeq = w.sweepStarts[0].Seq
+	}
+	out.hist = []HOp{{T: 0, N: 0, Op: add, Inv: 0, Resp: firstSeq, Res: res, GenID: gen}}
+	results := []string{res}
+	jprogs := [][]Op{{add}}
+	nr := 0
+	for i, st := range w.sweepStarts {
+		v, was := listed[st.ID]
+		if !was || !hailExpired(v) {
+			out.v = &verdict{"C02/h/sweep-deletes-a-hail-its-list-did-not-show-expired", fmt.Sprintf("the sweep started a Delete of hail %d, which its List did not show expired", st.ID), showContents(listed), strconv.Itoa(st.ID)}
+			return out
+		}
+		if i < len(w.rivals) {
+			rv := w.rivals[i]
+			nr++
+			out.progs = append(out.progs, []Op{rv.op})
+			jprogs = append(jprogs, []Op{rv.op})
+			out.hist = append(out.hist, HOp{T: nr, N: 0, Op: rv.op, Inv: rv.inv, Resp: rv.resp, Res: rv.res, GenID: rv.genID})
+			r.Results = append(r.Results, []string{rv.res})
+			out.sched = append(out.sched, nr, nr, nr, nr)
+		}
+		e := v
+		out.dels[0][len(out.progs[0])] = true
+		out.progs[0] = append(out.progs[0], Op{K: "d", ID: st.ID, AM: true, Expect: &e})
+		out.sched = append(out.sched, 0, 0)
+		// what this Delete did: the hails after the rival that ran at its start against the hails at the start of
+		// the next Delete (or at the end)
+		next := r.Final
+		nextSeq := end
+		if i+1 < len(w.sweepStarts) {
+			next, nextSeq = w.sweepStarts[i+1].Before, w.sweepStarts[i+1].Seq
+		}
+		for _, id := range sortedIDs(st.After) {
+			if nv, still := next[id]; still && nv == st.After[id] {
+				continue
+			}
+			if id != st.ID {
+				out.v = &verdict{"C02/h/contents-changed-outside-commit", fmt.Sprintf("the sweep's Delete of hail %d changed hail %d", st.ID, id), showContents(st.After), showContents(next)}
+				return out
+			}
+		}
+		gone := "-"
+		if have, had := st.After[st.ID]; had {
+			if _, still := next[st.ID]; !still {
+				gone = "ok:" + have.String()
+				jprogs[0] = append(jprogs[0], Op{K: "d", ID: st.ID, AM: true, Expect: &e})
+				out.hist = append(out.hist, HOp{T: 0, N: 100 + i, Op: Op{K: "d", ID: st.ID, AM: true, Expect: &e}, Inv: st.Seq, Resp: nextSeq, Res: gone, GenID: -1})
+				if !hailExpired(have) {
+					out.v = &verdict{"C02/h/sweep-removed-a-hail-that-is-not-expired",
+						fmt.Sprintf("the sweep of expired hails run by CreateHail removed hail %d in the version %s, which is not expired: the version its List showed expired was %s, another writer stored %s between the List and the Delete", st.ID, have, v, have),
+						"the sweep's Delete removes only the version its precondition accepts (the listed, expired one)", "removed " + have.String()}
+				}
+			}
+		}
+		results = append(results, gone)
+	}
+	out.sched = append(out.sched, 0, 0)
+	out.scx.Progs = jprogs
+	commits := 0
+	for _, h := range out.hist {
+		if strings.HasPrefix(h.Res, "ok:") && h.Res != "ok:nil" {
+			commits++
+		}
+	}
+	parts := []string{fmt.Sprintf("T0=[%s]", strings.Join(results, ","))}
+	for t := 1; t < len(r.Results); t++ {
+		parts = append(parts, fmt.Sprintf("T%d=[%s]", t, strings.Join(r.Results[t], ",")))
+	}
+	out.obs = strings.Join(parts, "|") + "|store=" + showStamped(r.Final, r.Stamps) + fmt.Sprintf("|log=%d", commits) +
+		"|pc=" + strings.Repeat("i", len(out.progs)) + fmt.Sprintf("|rng=%d", r.RNG)
+	return out
+}
+
+// nestedSweepWitnesses / genNestedSweep: an expired hail (or two), CreateHail, and per Delete the sweep starts one
+// complete rival call on the hail it is about to delete
+func nestedSweepWitnesses() []Scenario {
+	set := func(a, b int64) string { return "s" + P{a, b}.String() }
+	exp := map[string]P{"4": {4, 1}}
+	two := map[string]P{"3": {4, 1}, "4": {2, 1}}
+	mk := func(init map[string]P, rv ...Op) Scenario {
+		o := hailOp(1, 0)
+		o.Rivals = rv
+		return Scenario{Init: init, Clock: "f", Carrier: "hail", Nested: true, Progs: [][]Op{{o}}}
+	}
+	return []Scenario{
+		mk(exp),
+		mk(exp, Op{K: "u", ID: 4, F: set(1, 3)}), // re-dispatched: not expired any more
+		mk(exp, Op{K: "u", ID: 4, F: set(0, 2), Mask: "b"}),                       //
+		mk(exp, Op{K: "u", ID: 4, F: set(3, 0), Mask: "a"}),                       // another state: expired, but not the listed version
+		mk(exp, Op{K: "u", ID: 4, F: "b1", Mask: "b"}),                            //
+		mk(exp, Op{K: "d", ID: 4}),                                                // gone already: allow missing
+		mk(exp, Op{K: "u", ID: 4, Expect: pp(4, 1), F: set(4, 1)}),                // rewritten as it was
+		mk(two, Op{K: "u", ID: 4, F: set(1, 3)}, Op{K: "u", ID: 4, F: "b1"}),      // the rival of the first Delete writes the second hail
+		mk(two, Op{K: "u", ID: 3, F: set(1, 3)}, Op{K: "u", ID: 4, F: set(1, 3)}), //
+	}
+}
+
+func genNestedSweep(rng *rand.Rand) Scenario {
+	sc := Scenario{Init: map[string]P{"4": {int64(1 + rng.Intn(4)), 1}}, Clock: "f", Carrier: "hail", Nested: true}
+	ids := []int{4}
+	if rng.Intn(2) == 0 {
+		ids = append(ids, 3)
+		sc.Init["3"] = P{int64(1 + rng.Intn(4)), []int64{1, 1, 1, 0, 3}[rng.Intn(5)]}
+	}
+	o := hailOp(int64(1+rng.Intn(3)), []int64{0, 0, 2, 3}[rng.Intn(4)]) // (a new hail that is expired itself: hooked family)
+	for i, n := 0, rng.Intn(3); i < n; i++ {
+		id := ids[rng.Intn(len(ids))]
+		switch k := rng.Intn(8); {
+		case k < 3:
+			o.Rivals = append(o.Rivals, Op{K: "u", ID: id, F: "s" + P{int64(rng.Intn(4)), int64(rng.Intn(4))}.String(), Mask: []string{"", "b"}[rng.Intn(2)]})
+		case k < 4:
+			o.Rivals = append(o.Rivals, Op{K: "u", ID: id, F: "b" + strconv.Itoa(1+rng.Intn(2)), Mask: "b"})
+		case k < 6:
+			o.Rivals = append(o.Rivals, Op{K: "u", ID: id, F: "s" + P{int64(rng.Intn(5)), 0}.String(), Mask: "a"})
+		case k < 7:
+			o.Rivals = append(o.Rivals, Op{K: "d", ID: id, AM: rng.Intn(2) == 0})
+		default:
+			v := sc.Init[strconv.Itoa(id)]
+			o.Rivals = append(o.Rivals, Op{K: "u", ID: id, Expect: &v, F: "s" + P{int64(rng.Intn(4)), int64(rng.Intn(4))}.String()})
+		}
+	}
+	sc.Progs = [][]Op{{o}}
+	return sc
+}
+
 // sweepFamily: hooked executions of CreateHail (and its sweep) against writers of the hails it sweeps
 func sweepFamily(f lib.Flags, res *lib.Result, rng *rand.Rand, mon *lib.Monitor) {
+	tie := res.Tie("hail-sweep", "K4",
+		"hooked executions of hailpb.Model.CreateHail - an Add with a generated id followed by the model's sweep of expired hails: List, then Delete(allow missing, expected value = the listed copy) per expired hail - against writers of the hails it sweeps (UpdateHail re-dispatching / changing the state, masked or not, DeleteHail, upserts, a second CreateHail), under ticking / frozen / coarse clocks; the execution is given to run(model) as the program Add ; Delete ; Delete … of that thread (one Delete per Delete the sweep started, seen through the collection's id lookups; expected value = the version the hail had when the List ran) on the real schedule plus the read step of each Delete; results of every call (of a sweep's Delete: the version that disappeared, or nothing), final contents with change times, number of commits, rng reads compared; all schedules of the witness scenarios, random schedules of random ones; non-trivial = a writer's call overlapped the CreateHail; distinct = distinct (scenario, schedule)")
 	ctl := k4.New(parkPoints...)
 	defer ctl.Close()
 	type scase struct {
@@ -223,10 +535,43 @@ func sweepFamily(f lib.Flags, res *lib.Result, rng *rand.Rand, mon *lib.Monitor)
 		sc := genSweep(rng)
 		cases = append(cases, scase{sc, runScheduled(ctl, sc, nil, func(en []int) int { return en[rng.Intn(len(en))] })})
 	}
+	// model side
+	type mview struct {
+		progs [][]Op
+		dels  map[int]map[int]bool
+		line  string
+	}
+	views := make([]*mview, len(cases))
+	var lines []string
+	for i, c := range cases {
+		if progs, sched, dels, ok := sweepModel(c.sc, c.run); ok {
+			views[i] = &mview{progs, dels, driverLine(c.sc, progs, sched)}
+			lines = append(lines, views[i].line)
+		}
+	}
+	answers, err := lib.RunOnce(f.Driver, lines)
+	if err != nil {
+		tie.Fail(err)
+	}
 	removed, kept := 0, 0
-	for _, c := range cases {
+	ai := 0
+	for i, c := range cases {
 		in := c.sc.input(c.run.Sched)
 		scx, hist, v := expandSweeps(c.sc, c.run)
+		if mv := views[i]; mv != nil {
+			if err == nil && v == nil {
+				tie.Record(mv.line, overlapped(c.run.Hist), in, sweepAnswer(answers[ai], mv.dels), sweepObserved(c.sc, c.run, mv.progs, mv.dels, hist))
+				for _, h := range hist {
+					tie.Count(h.Op.K + ":" + h.Res[:strings.IndexByte(h.Res, ':')+1] + codeOf(h.Res))
+				}
+				n := 0
+				for _, d := range mv.dels {
+					n += len(d)
+				}
+				tie.Count(fmt.Sprintf("sweep-deletes:%d", n))
+			}
+			ai++
+		}
 		mon.Eval("hail-sweep "+fmt.Sprint(in), overlapped(c.run.Hist), nil)
 		for _, h := range hist {
 			mon.Count(codeOf(h.Res))
@@ -253,8 +598,56 @@ func sweepFamily(f lib.Flags, res *lib.Result, rng *rand.Rand, mon *lib.Monitor)
 			mon.Violate(v.sig+c.sc.family(), v.what, in, v.expected, v.observed)
 		}
 	}
+	// the window between the List and a Delete's read, hook-free
+	var nscs []Scenario
+	nscs = append(nscs, nestedSweepWitnesses()...)
+	for i, k := 0, f.N(300, 5000); i < k; i++ {
+		nscs = append(nscs, genNestedSweep(rng))
+	}
+	var nruns []*nestedSweep
+	var nlines []string
+	for _, sc := range nscs {
+		if stuckNested >= 3 {
+			break
+		}
+		ns := runNestedSweep(sc)
+		nruns = append(nruns, ns)
+		if ns.v == nil && !ns.run.Stuck {
+			nlines = append(nlines, driverLine(sc, ns.progs, ns.sched))
+		}
+	}
+	nanswers, nerr := lib.RunOnce(f.Driver, nlines)
+	if nerr != nil {
+		tie.Fail(nerr)
+	}
+	ai = 0
+	for i, ns := range nruns {
+		sc := nscs[i]
+		in := sc.input(nil)
+		mon.Eval("hail-sweep nested "+fmt.Sprint(in), len(ns.hist) > 1, nil)
+		if ns.v == nil && !ns.run.Stuck {
+			if nerr == nil {
+				tie.Record(nlines[ai], len(ns.progs) > 1, in, sweepAnswer(nanswers[ai], ns.dels), ns.obs)
+				tie.Count("nested:between-list-and-delete")
+			}
+			ai++
+		}
+		for _, h := range ns.hist {
+			mon.Count(codeOf(h.Res))
+			if h.N >= 100 {
+				removed++
+			}
+		}
+		if ns.v != nil {
+			mon.Violate(ns.v.sig+sc.family(), ns.v.what, in, ns.v.expected, ns.v.observed)
+			continue
+		}
+		if v := judge(ns.scx, ns.hist, ns.run.Final); v != nil {
+			mon.Violate(v.sig+sc.family(), v.what, in, v.expected, v.observed)
+		}
+	}
+	mon.Distribution["hail-sweep:nested-cases"] += len(nruns)
 	mon.Distribution["hail-sweep:cases"] += len(cases)
 	mon.Distribution["hail-sweep:hails-removed-by-the-sweep"] += removed
 	mon.Distribution["hail-sweep:runs-in-which-an-initial-hail-survived"] += kept
-	_ = strings.TrimSpace
 }
